@@ -18,5 +18,15 @@ if ! cargo build --release --quiet 2>"$VERIF_DIR/target/build-$$.log"; then
     exit 2
 fi
 rm -f "$VERIF_DIR/target/build-$$.log"
+if [ "${2:-}" = "thorough" ] && [ -z "${VERIF_NO_FUZZ:-}" ]; then
+    # coverage-guided tier: one libFuzzer target for all fuzzable sub-checks (harness/src/fuzz.rs),
+    # built with the nightly toolchain against /repo's working tree and a patched copy of proptest.
+    # If it cannot be built the thorough tier runs without it and says so in the evidence.
+    ( flock 9
+      RUSTFLAGS="--cfg getong_stateright_verif --cfg srv_patched_proptest" \
+        cargo +nightly fuzz build --fuzz-dir "$VERIF_DIR/fuzz" --target-dir "$VERIF_DIR/target" -s none sub \
+        >"$VERIF_DIR/target/fuzz-build.log" 2>&1 || { echo "check.sh: fuzz target not built (see target/fuzz-build.log); thorough tier continues without it" >&2; rm -f "$VERIF_DIR/target/x86_64-unknown-linux-gnu/release/sub"; }
+    ) 9>"$VERIF_DIR/target/.fuzz-build.lock"
+fi
 cd "$VERIF_DIR" || exit 2
 exec "$VERIF_DIR/target/release/srv" "$@"
